@@ -2,4 +2,5 @@ import DrandProofs.C16
 import DrandProofs.C17
 import DrandProofs.C18
 import DrandProofs.C02
+import DrandProofs.C11
 import DrandProofs.C12
